@@ -7,7 +7,7 @@ out=/tmp/seed-$id
 mkdir -p $out
 prop=$(grep "\"id\": *\"$id\"" /verif/properties.jsonl || jq -c "select(.id==\"$id\")" /verif/properties.jsonl)
 cat <<P
-You are working alone in a scratch git worktree of the WuKongIM repository (a distributed instant-messaging server written in Go) at $wt. The sandbox has no network; the module builds and tests offline with the plain \`go\` command (e.g. \`cd $wt && go build ./... && go test -count=1 ./pkg/some/package/...\`). Work ONLY inside $wt and $out. Never read or write /repo or /verif.
+You are working alone in a scratch git worktree of the WuKongIM repository (a distributed instant-messaging server written in Go) at $wt. The sandbox has no network; the module builds and tests offline with the plain \`go\` command (e.g. \`cd $wt && go build ./... && go test -count=1 ./pkg/some/package/...\`). Work ONLY inside $wt and $out. Never read or write /repo or /verif. Do NOT use \`git stash\` (the stash is shared with other worktrees of the same repository): to set a change aside use \`git diff > file && git checkout -- .\` and \`git apply file\`.
 
 Here is a semantic property that the repository is supposed to satisfy (JSON record):
 
